@@ -76,11 +76,10 @@ class Pi4QPSKModulator(BaseModulator):
         # Store just one constellation for compatibility with test
         self.register_buffer("constellation", qpsk)
 
-        # Bit patterns for symbols (Gray coded or binary)
-        if self.gray_coded:
-            bit_patterns = torch.tensor([[0, 0], [0, 1], [1, 1], [1, 0]], dtype=torch.float)
-        else:
-            bit_patterns = torch.tensor([[0, 0], [0, 1], [1, 0], [1, 1]], dtype=torch.float)
+        # Bit patterns for symbols: point i carries the natural-binary label of i, which is how
+        # forward() indexes the constellations. With gray_coded=True the Gray property comes from
+        # the order of the points above (angles 1, 3, 7, 5 carry 00, 01, 10, 11).
+        bit_patterns = torch.tensor([[0, 0], [0, 1], [1, 0], [1, 1]], dtype=torch.float)
 
         self.register_buffer("bit_patterns", bit_patterns)
 
